@@ -321,7 +321,10 @@ class LinkedGen:
         # them (they once allocated the copies with the SOURCE list's allocator, corpus add_all_two_triples)
         # and zip iterators over such a pair (zip_iter_add allocates one node per list, each from its own
         # list's triple; corpus zip_two_triples).  splice / splice_at are left out of mixed histories:
-        # they move the nodes themselves, so across allocators they are inherently outside the contract.
+        # they move the nodes themselves, so across allocators the destination later frees foreign blocks.
+        # That is recorded as a KNOWN FINDING, not silently excluded: witness corpus/{list,slist}/
+        # defect_splice_two_triples.ops (L2 `libc-free-of-conf-block`); in Lean it is the hypothesis
+        # `ListHistory.Compat` / `SpliceOk` of every history theorem (see the header of Properties/C04.lean).
         # No `fail=` in histories that contain a default-constructed list (libc cannot be refused).
         r0 = rng.random()
         if focus in ("all", "refuse") and r0 < 0.10:
